@@ -83,6 +83,16 @@ def c12_history(n, seed, procs):
                                   observed=(got[k][:300] if (got and k is not None) else str(got)[:300]), expected=(ref[k][:300] if k is not None else "length %d" % len(ref)), tags=["c12"]))
             continue
         hist = []
+        if it % 3 == 2:
+            # the SAME program with its class parameters given as another scalar type (numpy.float32 / float64 / Python ints): a value
+            # computed once per parameter tuple and remembered across models (a cache keyed by `==`) would be served to model B
+            tname = ["numpy.float32", "numpy.float64", "numpy.float16"][(it // 3) % 3]; hist.append("same program, parameters as " + tname)
+            impl_t = cw.Impl(); impl_t.ptype = dict([("numpy.float32", np.float32), ("numpy.float64", np.float64), ("numpy.float16", np.float16)])[tname]
+            buf_t = io.StringIO()
+            with contextlib.redirect_stdout(buf_t):
+                for l in cw.gen_collect(bseed):
+                    try: impl_t.run(l)
+                    except Exception: pass
         for k in range(rnd.randint(1, 5)):
             kind = rnd.choice(["collect", "cls", "steps", "resolve", "oracle", "solve", "solve", "abandon"])
             hist.append(kind)
@@ -118,6 +128,54 @@ def c12_history(n, seed, procs):
         if it < 2: samples.append(dict(bseed=bseed, history=hist, verbose=verb, dumps=len(ref)))
         if len(fails) > 3: break
     return dict(evaluations=n, distinct=len(distinct), failures=fails[:5], samples=samples)
+
+
+def c12_types_run(n, typed):
+    """the class-constraint dumps of the first `n` programs of the class x scale sweep of the cls stream (Python-float
+    parameters); with `typed`, each program is first run with its class parameters given as numpy.float32, float16 and float64"""
+    import corr_world as cw
+    outs = {}
+    for k in range(n):
+        sd = 4 * k + 3; lines = cw.gen_class(sd)
+        buf = io.StringIO()
+        with contextlib.redirect_stdout(buf):
+            if typed:
+                for T in (np.float32, np.float16, np.float64):
+                    impl = cw.Impl(); impl.ptype = T
+                    for l in lines:
+                        try: impl.run(l)
+                        except Exception: pass
+            impl = cw.Impl(); impl.ptype = float; o = []
+            for l in lines:
+                try: r = impl.run(l)
+                except Exception as ex: r = "EXC %s" % type(ex).__name__
+                if l.startswith("dump."): o.append(r)
+        outs[str(sd)] = o
+    return dict(outs=outs)
+
+
+def c12_types(n, seed, procs):
+    """every class at every scale: the constraints generated for Python-float parameters in a fresh interpreter vs in an
+    interpreter where the SAME program was run before with numerically equal parameters of other scalar types (numpy.float32,
+    float16, float64): what is generated for a model must not depend on models built earlier, whatever their number types"""
+    import corr_world as cw
+    n = max(25, min(n, 150)); res = {}
+    for typed in (0, 1):
+        r = subprocess.run([sys.executable, "-W", "ignore", os.path.join(HERE, "oracles.py"), "c12_types_run", str(n), str(typed), "1"], capture_output=True, text=True)
+        for l in r.stdout.splitlines():
+            if l.startswith("@@JSON@@"): res[typed] = json.loads(l[8:]).get("outs")
+        if res.get(typed) is None:
+            return dict(evaluations=0, distinct=0, failures=[dict(what="c12_types_run crashed", oracle="c12_types", observed=(r.stdout + r.stderr)[-400:], tags=["c12-infra"])], samples=[])
+    fails = []
+    for sd, ref in res[0].items():
+        got = res[1].get(sd)
+        if got != ref:
+            k = next((i for i in range(min(len(got or []), len(ref))) if got[i] != ref[i]), None)
+            lines = cw.gen_class(int(sd))
+            fails.append(dict(what="class constraints of a model depend on a model built EARLIER in the interpreter with numerically equal parameters of another scalar type (numpy.float32 / float16 / float64): %s" % [l for l in lines if l.startswith(("fn.decl", "fn.new"))][:1],
+                              oracle="c12_types", input=dict(cls_seed=int(sd), program=lines), observed=(got[k][:300] if (got and k is not None) else str(got)[:300]),
+                              expected=(ref[k][:300] if k is not None else "length %d" % len(ref)), tags=["c12"]))
+    return dict(evaluations=len(res[0]), distinct=len(res[0]), failures=fails[:5], samples=[dict(programs=len(res[0]))], exhaustive=(n >= 150))
 
 
 # ------------------------------------------------------------------ C13
@@ -477,7 +535,8 @@ def c08_steps(n, seed, procs):
 
 
 ORACLES = dict(c08_steps=c08_steps, c12_history=c12_history, c13_resolve=c13_resolve, c17_tables=c17_tables,
-               c12_fresh=lambda n, seed, procs: c12_fresh(n, seed, stray=(procs == 2)))
+               c12_fresh=lambda n, seed, procs: c12_fresh(n, seed, stray=(procs == 2)),
+               c12_types=c12_types, c12_types_run=lambda n, seed, procs: c12_types_run(n, bool(seed)))
 PARALLEL = {"c13_resolve", "c08_steps"}
 try:
     import oracles4
